@@ -178,6 +178,11 @@ func (ml *MapLoop) Issues(o OrderOpts) []OrderIssue {
 				if ml.iterLocal(root) || ml.derivedFromElem(root) {
 					continue // distinct object per iteration
 				}
+				if ia, ok := x.Addr.(*ssa.IndexAddr); ok {
+					if hp, ok := ia.Index.(*ssa.Phi); ok && hp.Block() == l.Header {
+						continue // counter-indexed fill: decided with the counter (must be sorted before use)
+					}
+				}
 				add("store-outer-memory", x.Pos(), "store through %s, which is not local to the iteration", ExprKey(root))
 			case *ssa.MapUpdate:
 				if ml.iterLocal(x.Map) {
@@ -319,9 +324,11 @@ func (ml *MapLoop) classifyCarried(p *ssa.Phi, e ssa.Value, depth int, add func(
 			if isStringType(x.Type()) {
 				add("carried-string-concat", x.Pos(), "string concatenation into %s in map order", p.Comment)
 			}
+			ml.checkIntermediateUnused(p, x, add)
 			return
 		}
 		if x.Op == token.SUB && tracesTo(x.X, p, map[ssa.Value]bool{}) {
+			ml.checkIntermediateUnused(p, x, add)
 			return // acc -= y
 		}
 	case *ssa.Phi:
@@ -336,6 +343,7 @@ func (ml *MapLoop) classifyCarried(p *ssa.Phi, e ssa.Value, depth int, add func(
 	case *ssa.Call:
 		if bi, ok := x.Call.Value.(*ssa.Builtin); ok && bi.Name() == "append" && tracesTo(x.Call.Args[0], p, map[ssa.Value]bool{}) {
 			ml.checkSliceCanonicalised(p, add, o)
+			ml.checkIntermediateUnused(p, x, add)
 			return
 		}
 	}
@@ -389,6 +397,74 @@ func (ml *MapLoop) conditionalOrOpaque(p *ssa.Phi, e ssa.Value, add func(string,
 		}
 	}
 	add("carried-last-writer", posOf(e, p), "loop-carried variable %s takes a value from the current element (%s): the last element seen wins", p.Comment, ExprKey(e))
+}
+
+// checkIntermediateUnused: the running value of an accumulator depends on the visiting order, so
+// inside the loop it may feed only its own update (and the phis that merge it).
+func (ml *MapLoop) checkIntermediateUnused(p *ssa.Phi, update ssa.Value, add func(string, token.Pos, string, ...interface{})) {
+	seen := map[ssa.Value]bool{}
+	var visit func(v ssa.Value)
+	visit = func(v ssa.Value) {
+		if seen[v] {
+			return
+		}
+		seen[v] = true
+		refs := v.Referrers()
+		if refs == nil {
+			return
+		}
+		for _, r := range *refs {
+			if !ml.Loop.Body[r.Block()] {
+				continue
+			}
+			if rv, ok := r.(ssa.Value); ok && rv == update {
+				continue
+			}
+			switch x := r.(type) {
+			case *ssa.Phi:
+				if x != p {
+					visit(x)
+				}
+				continue
+			case *ssa.DebugRef:
+				continue
+			case *ssa.BinOp:
+				// another accumulation step of the same variable (acc += a; acc += b)
+				if (commutativeOps[x.Op] || x.Op == token.SUB) && tracesTo(update, x, map[ssa.Value]bool{}) {
+					continue
+				}
+			}
+			if cc := CallOf(r); cc != nil {
+				if bi, ok := cc.Value.(*ssa.Builtin); ok && bi.Name() == "append" && len(cc.Args) > 0 && cc.Args[0] == v {
+					continue // the append that extends the slice
+				}
+			}
+			// counter-indexed fill of a slice that is sorted before any other use
+			if ia, ok := r.(*ssa.IndexAddr); ok && ia.Index == v {
+				onlyStores := true
+				for _, rr := range *ia.Referrers() {
+					if st, ok := rr.(*ssa.Store); !ok || st.Addr != ssa.Value(ia) {
+						onlyStores = false
+					}
+				}
+				if onlyStores {
+					if u, ok := ia.X.(*ssa.UnOp); ok && u.Op == token.MUL {
+						if a, ok := u.X.(*ssa.Alloc); ok && !ml.inLoop(a) {
+							ml.checkAllocSliceCanonicalised(a, add)
+							continue
+						}
+					}
+					if ms, ok := ia.X.(*ssa.MakeSlice); ok && !ml.inLoop(ms) {
+						ml.checkValueSliceCanonicalised(ms, add)
+						continue
+					}
+				}
+			}
+			add("accumulator-intermediate-used", r.Pos(), "the running value of %s (which depends on the order elements are visited in) is used inside the loop by `%s`", p.Comment, r.String())
+			return
+		}
+	}
+	visit(p)
 }
 
 func posOf(e ssa.Value, p *ssa.Phi) token.Pos {
@@ -462,6 +538,56 @@ func (ml *MapLoop) checkSliceCanonicalised(p *ssa.Phi, add func(string, token.Po
 		}
 		if !ok {
 			add("slice-in-map-order", u.Pos(), "slice %s is filled in map iteration order and used here before being sorted", p.Comment)
+			return
+		}
+	}
+}
+
+// checkValueSliceCanonicalised: a slice value filled inside the loop must be sorted before any
+// other use after the loop.
+func (ml *MapLoop) checkValueSliceCanonicalised(sv ssa.Value, add func(string, token.Pos, string, ...interface{})) {
+	var sorts, others []ssa.Instruction
+	for _, r := range *sv.Referrers() {
+		if ml.Loop.Body[r.Block()] {
+			continue
+		}
+		if _, ok := r.(*ssa.DebugRef); ok {
+			continue
+		}
+		if mi, ok := r.(*ssa.MakeInterface); ok {
+			for _, r3 := range *mi.Referrers() {
+				if cc := CallOf(r3); cc != nil && CallDesc(cc).Pkg == "sort" {
+					sorts = append(sorts, r3)
+				} else {
+					others = append(others, r3)
+				}
+			}
+			continue
+		}
+		if cc := CallOf(r); cc != nil {
+			d := CallDesc(cc)
+			if d.Pkg == "builtin" && (d.Name == "len" || d.Name == "cap") {
+				continue
+			}
+			if d.Pkg == "sort" {
+				sorts = append(sorts, r)
+				continue
+			}
+		}
+		if _, ok := r.(*ssa.MakeClosure); ok {
+			continue
+		}
+		others = append(others, r)
+	}
+	for _, u := range others {
+		ok := false
+		for _, s := range sorts {
+			if DominatesInstr(s, u) {
+				ok = true
+			}
+		}
+		if !ok {
+			add("slice-in-map-order", u.Pos(), "slice %s is filled in map iteration order and used here before being sorted", sv.Name())
 			return
 		}
 	}
